@@ -182,9 +182,22 @@ def run(ctx: Context) -> None:
                 if t[0] != "cmp" or len(t[1]) != 1:
                     continue
                 op, (l, r) = t[1][0], t[2]
+
+                def _sv(x_):
+                    # the state item, or "the state item or None" (`try: s = d[State] except KeyError: s = None`, `d[State] if State in d else None`)
+                    if x_[0] == "phi":
+                        rest_ = [a_ for a_ in x_[1] if a_ != ("const", None)]
+                        return rest_[0] if len(rest_) == 1 else x_
+                    return x_
+
+                l, r = _sv(l), _sv(r)
                 if op in ("Is", "IsNot") and r == ("const", None) and is_state_get(l):
                     # a missing state is tolerated (documented quirk): that outcome passes
                     pass_edges += ctx.edges(cfg, n, "T" if op == "Is" else "F")
+                    continue
+                if op in ("In", "NotIn") and l == ("const", TLV_STATE):
+                    # `State not in reply` [absent]: the same tolerated outcome, asked as a membership test
+                    pass_edges += ctx.edges(cfg, n, "T" if op == "NotIn" else "F")
                     continue
                 exp = ("param", params[1])
                 if op in ("NotEq", "Eq") and (
